@@ -128,6 +128,8 @@ def dynamic_table(max_pre=2):
                         ahead = list(pre) + ([t] if t != 'EOF' else [])
                         r = K.step(s, k, ahead)
                         calls += 1
+                        if r.get('crash'):
+                            problems.append(('crash', s, k, pre, t, r['crash']))
                         res.setdefault(la_class(t), set()).add((r['to'], r['ev'], r['errors']))
                         want = tuple(pre) + (t,)
                         if r['queue'] != () and r['queue'] != want:
@@ -228,7 +230,10 @@ def choice_run(state, script, eof=False):
     ctx = ParserContext(_Scan(), m, deque(), [])
     tok = Token('' if eof else _Line(), {'line': 1})
     tok.tag = 'cur'
-    to = p.match_token(state, tok, ctx)
+    try:
+        to = p.match_token(state, tok, ctx)
+    except Exception as e:  # noqa: BLE001 - reported by dynamic_table as a crashing transition
+        return {'to': None, 'ev': rec.ev, 'log': m.log, 'err': ['%s: %s' % (type(e).__name__, e)], 'q': []}
     return {'to': to, 'ev': rec.ev, 'log': m.log, 'err': [str(e) for e in ctx.errors], 'q': [t.tag for t in ctx.token_queue]}
 
 
